@@ -45,7 +45,8 @@ def check_resolution(chk):
     first = [s for s in body if isinstance(s, ast.Assign) and norm(s.value) == f"{inc}['url']"]
     if len(first) != 1 or not isinstance(first[0].targets[0], ast.Name):
         raise Unrecognised('C17.R', "assignment from include['url'] not found", mod.rel)
-    U = first[0].targets[0].id
+    U0 = first[0].targets[0].id
+    U = U0
     # resolution chain
     res = [s for s in body if isinstance(s, ast.If) and any(isinstance(x, ast.Assign) and 'url_file_relative' in norm(x.value) for x in s.body)]
     if len(res) != 1:
@@ -53,15 +54,25 @@ def check_resolution(chk):
     chain = if_chain(res[0])
     sp = next((k for k in _local_defs(func) if _local_defs(func)[k] == f"{opt}.get('systemPrefix')"), None)
     uf = next((k for k in _local_defs(func) if _local_defs(func)[k] == f"{opt}.get('urlFn')"), None)
-    if len(chain) != 2 or chain[1][0] is None or len(chain[0][1]) != 1 or len(chain[1][1]) != 1 or not all(isinstance(b[0], ast.Assign) for _t, b in chain):
-        raise Unrecognised('C17.R', 'resolution conditional is not `if system & prefix: U = ...  elif urlFn: U = ...`', mod.rel)
+    if len(chain) not in (2, 3) or chain[1][0] is None or any(len(bd) != 1 or not isinstance(bd[0], ast.Assign) or not isinstance(bd[0].targets[0], ast.Name) for _t, bd in chain) \
+            or (len(chain) == 3 and chain[2][0] is not None):
+        raise Unrecognised('C17.R', 'resolution conditional is not `if system & prefix: U = ...  elif urlFn: U = ... [else: U = url]`', mod.rel)
     t0, b0 = chain[0]
     t1, b1 = chain[1]
+    targets = {bd[0].targets[0].id for _t, bd in chain}
+    if len(targets) != 1:
+        raise Unrecognised('C17.R', f'the resolution branches assign different variables {sorted(targets)}', mod.rel)
+    U = targets.pop()
+    srcs = {U0} | ({U} if (U == U0 or any(isinstance(x, ast.Assign) and norm(x.targets[0]) == U and norm(x.value) == U0 for x in body)) else set())
+    if len(chain) == 2 and U not in srcs:
+        raise Unrecognised('C17.R', f'{U} is not initialised from the include url when neither resolution applies', mod.rel)
     shape = ("'system'" in norm(t0) and sp is not None and sp in norm(t0) and isinstance(b0[0].value, ast.Call) and call_name(b0[0].value) == 'url_file_relative'
              and uf is not None and norm(t1) == f'{uf} is not None' and isinstance(b1[0].value, ast.Call) and norm(b1[0].value.func) == uf)
     if not shape:
         raise Unrecognised('C17.R', f'resolution conditional has an unrecognised shape: {norm(t0)[:60]} / {norm(t1)[:40]}', mod.rel)
-    ok = (norm(b0[0]) == f'{U} = url_file_relative({sp}, {U})' and norm(b1[0]) == f'{U} = {uf}({U})')
+    a0 = [norm(x) for x in b0[0].value.args]
+    a1 = [norm(x) for x in b1[0].value.args]
+    ok = len(a0) == 2 and a0[0] == sp and a0[1] in srcs and len(a1) == 1 and a1[0] in srcs and (len(chain) == 2 or norm(chain[2][1][0].value) in srcs)
     if ok:
         chk.ok('C17.R', f'resolution: system include & prefix -> url_file_relative(prefix, {U}); else urlFn -> urlFn({U}); else unchanged; result stays in {U}')
     else:
